@@ -2,7 +2,7 @@ INIT GenInit
 NEXT GenNext
 CONSTANTS
   KL = 250
-  KS = 10
+  KS = 3
   MaxLen = 4
 INVARIANTS Emit
 CHECK_DEADLOCK FALSE
